@@ -211,6 +211,85 @@ def high_degree_case(rng):
     return "seq %s %s | %s:2:0:1 sgn:2 floor:2 cmpd:2:m" % (x, y, rng.choice(["mul", "div"]))
 
 
+# ---- "twins": two numbers given with IDENTICAL isolating intervals (the equal-interval branch of cmp: gcd test,
+# reduce_polynomial, bisection race), reducible polynomials sharing factors with / without a common root in the
+# interval, dyadic / rational numbers hidden behind polynomials and sitting at the mid point of the shared interval
+TWIN_FACTORS = [[-3, 0, 1], [1, 0, 1], [-5, 1], [-7, 0, 1], [1, 2], [3, 1], [-11, 0, 2], [1, 1, 1], [-10, 0, 0, 1], [9, 4]]
+
+
+def no_root_in(s, lo, hi):
+    S = Poly.get(s)
+    return peval(s, lo) != 0 and peval(s, hi) != 0 and S.count(lo, hi) == 0
+
+
+def twin_token(rng, p, lo, hi, shared=None):
+    """a: token for the root of p in (lo,hi), p multiplied by factors without roots there (product kept square-free)"""
+    q = list(p)
+    fs = [shared] if shared else []
+    if rng.random() < 0.5:
+        fs.append(rng.choice(TWIN_FACTORS))
+    for f in fs:
+        if f is None or not no_root_in(f, lo, hi):
+            continue
+        q2 = pmul(q, f)
+        if len(Poly.get(q2).ch[-1]) == 1 and q2[0] != 0:
+            q = q2
+    q = primitive(q)
+    assert Poly.get(q).count(lo, hi) == 1 and peval(q, lo) * peval(q, hi) < 0
+    return "a:%s:%s:%s" % (coeffs(q), dy_tok(lo), dy_tok(hi))
+
+
+def twins_case(rng):
+    from math import floor
+    # the first number and a tight interval around it that the constructor leaves alone (width < 1/2, no integer inside)
+    while True:
+        p = rng.choice(FIXED + [[-4, 3], [-11, 8], [-3, 8], [-7, 5], [-1, 3]] + [random_poly(rng)])
+        p = primitive(p)
+        P = Poly.get(p)
+        idx = rng.randrange(P.nroots)
+        lo, hi = approx(P, idx, rng.choice([2, 3, 3, 4, 6, 10]))
+        if lo == hi:
+            # dyadic root: put it at the mid point of an interval
+            w = F(1, 2 ** rng.choice([3, 4, 6]))
+            lo, hi = lo - w, hi + w
+        if hi - lo >= F(1, 2) or floor(lo) + 1 < hi or P.count(lo, hi) != 1 or peval(p, lo) == 0 or peval(p, hi) == 0:
+            continue
+        break
+    shared = rng.choice(TWIN_FACTORS + [None, None])
+    if shared is not None and not no_root_in(shared, lo, hi):
+        shared = None
+    x = twin_token(rng, p, lo, hi, shared)
+    k = rng.random()
+    mid = (lo + hi) / 2
+    extra = []
+    if k < 0.3:
+        # the SAME number with another polynomial (common root in the interval)
+        y = twin_token(rng, p, lo, hi, rng.choice(TWIN_FACTORS))
+    else:
+        # a DIFFERENT number in the same interval: the (dyadic) mid point, another rational, or a square root
+        while True:
+            t = rng.choice([F(1, 2), F(1, 2), F(1, 3), F(2, 3), F(1, 4), F(3, 4), F(2, 5), F(1, 8), F(7, 8)])
+            v = lo + (hi - lo) * t
+            if peval(p, v) != 0:
+                break
+        pv = [-v.numerator, v.denominator]
+        if rng.random() < 0.25 and lo > 0:
+            r = (v * v).limit_denominator(50)
+            cand = primitive([-r.numerator, 0, r.denominator])
+            C = Poly.get(cand)
+            if peval(cand, lo) * peval(cand, hi) < 0 and C.count(lo, hi) == 1 and len(Poly.get(pmul(cand, p)).ch[-1]) == 1:
+                pv = cand
+        y = twin_token(rng, pv, lo, hi, shared)
+        extra = ["cmpq:0:%d/%d" % (v.numerator, v.denominator), "cmpq:1:%d/%d" % (v.numerator, v.denominator)]
+    if rng.random() < 0.5:
+        x, y = y, x
+    steps = ["copy:2:0", "copy:3:1", "cmp:0:1", "cmp:1:0", "cmp:0:1", "cmp:1:0", "cmp:0:2", "cmp:1:3"] + extra
+    steps += [rng.choice(["cmpd:0:%s" % dy_tok(mid), "cmpd:1:%s" % dy_tok(mid), "sgn:0", "floor:1", "cmp:2:3", "sub:4:0:1"])]
+    if steps[-1].startswith("sub"):
+        steps.append("sgn:4")
+    return "seq %s %s | %s" % (x, y, " ".join(steps))
+
+
 def random_poly(rng):
     while True:
         d = rng.choice([2, 3, 3, 4, 4])
@@ -451,6 +530,8 @@ COLLAPSE = [
 def one_case(rng, tier):
     if rng.random() < 0.05:
         return high_degree_case(rng)
+    if rng.random() < 0.08:
+        return twins_case(rng)
     kind = rng.random()
     if kind < 0.04:
         pool, steps = rng.choice(COLLAPSE)
@@ -563,6 +644,8 @@ def tag(case):
         return "sequence"
     if any(s.startswith("point:") for s in t[bar + 1:]):
         return "touching"
+    if bar == 3 and t[1].startswith("a:") and t[2].startswith("a:") and t[1].split(":")[2:] == t[2].split(":")[2:]:
+        return "twins"
     if any(len(x.split(":")) > 1 and x[0] in "ra" and x.split(":")[1].count(",") >= 5 for x in t[1:bar]):
         return "highdeg-" + t[bar + 1].split(":")[0]
     if bar + 1 >= len(t):
@@ -587,8 +670,10 @@ def extra_coverage(cases, couts, mouts):
         if o:
             parts = o.split(" | ")
             if len(parts) >= 2:
-                for tok in parts[1].split():
-                    last = tok.split(";")[-1]
+                for st, tok in zip(t[bar + 1:], parts[1].split()):
+                    fs = tok.split(";")
+                    op = st.split(":")[0]
+                    last = fs[1] if op in ("neg", "inv") and len(fs) > 1 else (fs[0] if op in ("add", "sub", "mul", "div", "pow", "root", "copy") else fs[-1])
                     if tok == "skip":
                         results["skip"] += 1
                     elif tok == "undef":
